@@ -16,7 +16,7 @@ import (
 )
 
 var c14Authors = []string{"Ann", "Ann Lee", "李 雷", "R2 D2", "Joe 2020-01-01"}
-var c14Subjects = []string{"plain subject", "fix(core): repair x", "see [abc1234] for details", "move a => b", "1 2 file", "DATE release", " create mode 100644 x", "thanks AUTHOR", "say \"hi\""}
+var c14Subjects = []string{"plain subject", "fix(core): repair x", "see [abc1234] for details", "move a => b", "1 2 file", "DATE release", " create mode 100644 x", "thanks AUTHOR", "say \"hi\"", "handover from FULLAUTHOR DATE session notes"}
 var c14Paths = []string{"a.txt", "d/a.txt", "d e/f g.txt", "d/{x}.txt", "a => b.txt", "2020 notes.txt", "src/Main.java"}
 
 type gOp struct {
@@ -133,6 +133,7 @@ func c14History(c *engine.C, maxDepth int) []gCommit {
 		cm.Author = c14Authors[c.Choose(len(c14Authors), pfx+"author")]
 		subj := c14Subjects[c.Choose(len(c14Subjects), pfx+"subject")]
 		subj = strings.ReplaceAll(subj, "DATE", fmt.Sprintf("2020-01-%02d", i+1))
+		subj = strings.ReplaceAll(subj, "FULLAUTHOR", cm.Author) // the header's own "<author> <date>" text inside the subject
 		subj = strings.ReplaceAll(subj, "AUTHOR", strings.Fields(cm.Author)[0])
 		cm.Subject = subj
 		var existing []string
